@@ -279,7 +279,13 @@ fn collect_flow_count_flags_from_nodes(nodes: &[Node], targets: &mut BTreeMap<St
             Node::ReturnExpr(e) => {
                 collect_flow_count_flags_from_expr(e, targets);
             }
-            Node::VoidCall { args, .. } => {
+            // Arguments of diverts, tunnels and threads are expressions like any
+            // other: `-> knot(TURNS_SINCE(-> other))`.
+            Node::Divert(Divert { arguments: args, .. })
+            | Node::ThreadDivert(Divert { arguments: args, .. })
+            | Node::TunnelDivert { args, .. }
+            | Node::TunnelOnwardsWithTarget { args, .. }
+            | Node::VoidCall { args, .. } => {
                 for arg in args {
                     if let Expression::DivertTarget(target) = arg {
                         add_flow_count_flags(targets, target, COUNT_VISITS | COUNT_TURNS);
